@@ -110,9 +110,11 @@ GHOSTS['os_failed'] = z3.ArraySort(StrS, BoolS)    # paths on which makedirs / a
 GHOSTS['ser'] = z3.ArraySort(ObjS, BoolS)         # records handed to Cache._operation_to_json
 GHOSTS['bd_resv'] = z3.ArraySort(StrS, BoolS)      # output paths currently reserved in BuildDirs (by their own call)
 GHOSTS['fence_n'] = IntS                            # number of _append_suboperation calls (the fence re-check)
+GHOSTS['cache_read'] = z3.ArraySort(StrS, BoolS)    # files Cache.read_immutable has parsed successfully
+GHOSTS['exec_n'] = IntS                             # number of _exec_simple_operation calls (recorded queries)
 GHOSTS['ne_wit'] = z3.ArraySort(StrS, StrS)       # a child seen by an rmdir that failed with ENOTEMPTY
 GHOSTS['obs_dir'] = z3.ArraySort(StrS, BoolS)      # paths for which os.path.isdir answered True
-SCRATCH_GHOSTS = ('xq_n', 'xq_val', 'xq_exc', 'mv_done', 'os_failed', 'obs_dir', 'ser', 'ne_wit', 'bd_resv', 'fence_n')
+SCRATCH_GHOSTS = ('xq_n', 'xq_val', 'xq_exc', 'mv_done', 'os_failed', 'obs_dir', 'ser', 'ne_wit', 'bd_resv', 'fence_n', 'cache_read', 'exec_n')
 
 
 def log_append(lg, e):
